@@ -126,6 +126,20 @@ def build_corpus(seed, per_identity):
             if j == 0 and len(enc.payload) > 4:
                 cut = enc.payload[: rng.randint(3, len(enc.payload) - 1)]
                 corpus.append(dict(op="ctor", data=cut, labelmsm=1, tag=identity + ":cut", enc=None, fails=True))
+    # minimal-length (all counts zero) message of every identity: shortest valid payloads of each type
+    for identity in ids:
+        try:
+            enc = refmodel.build(identity, rng, "random", "zero", "empty")
+        except refmodel.DefinitionError:
+            continue
+        corpus.append(dict(op=rng.choice(("ctor", "parse")), data=enc.payload if corpus and False else enc.payload,
+                           labelmsm=1, tag=identity, enc=enc, fails=False))
+        if corpus[-1]["op"] == "parse":
+            corpus[-1]["data"] = refcrc.frame(enc.payload)
+    # readers in raise mode over streams that start with sync-like garbage (state must not leak into the next reader)
+    for junk in (b"\xd3\xd3", b"\xd3$", b"\xd3\xb5", b"\xb5\xd3", b"$\xd3", b"\xd3\xff\xd3", b"\xb5\x62\x01"):
+        fr = refcrc.frame(streams.rand_defined_payload(rng, "1005"))
+        corpus.append(dict(op="reader", data=junk + fr, labelmsm=1, tag="junk-then-frame", enc=None, fails=True))
     # same shape, different content: pairs of MSM messages with equal NSat/NSig but different masks
     for pre in refmsm.CONSTELLATION:
         for nsat, nsig in ((1, 1), (12, 3), (50, 1), (64, 1), (2, 32)):
